@@ -28,6 +28,15 @@ def main (paths : List String) : IO UInt32 := do
       | ["E", _, tid, _, op, old, new, func] =>
         let opn := op.toNat!
         if opn = 4 ∨ opn = 0 then continue
+        if opn = 9 then
+          -- a futex wait: the model's sleeper waits on the word it has just published - an owner's lock value with the waiters bit
+          -- (OnceP.L.slpExp); sleeping on any other value (the completed gate's 0xffffffff, 0) can miss the one wake-up
+          total := total + 1
+          let e := hexVal old
+          let owned : Bool := match decode e with | .owned _ true => true | _ => false
+          if e != 0 && e != 4294967295 && owned then ok := ok + 1
+          else bad := s!"{path}: a waiter went to sleep on a gate value that is not an owner's word with the waiters bit (OnceP.sleep): {line}" :: bad
+          continue
         total := total + 1
         if explained func opn (tid.toNat! % 1073741824) (decode (hexVal old)) (decode (hexVal new)) then ok := ok + 1
         else bad := s!"{path}: {line}" :: bad
